@@ -1,1 +1,12 @@
 import ThriftVerif.Props.C13
+#print axioms Props.C13.precount_map
+#print axioms Props.C13.precount_list_repaired
+#print axioms Props.C13.precount_list_partial
+#print axioms Props.C13.masked_write_wellformed_partial
+#print axioms Props.C13.masked_write_restrict
+#print axioms Props.C13.masked_read_restrict
+#print axioms Props.C13.nil_mask_is_std_write
+#print axioms Props.C13.nil_mask_is_std_read
+#print axioms Props.C13.required_still_written
+#print axioms Props.C13.nonrequired_filtered_absent_partial
+#print axioms Props.C13.halfway
